@@ -130,7 +130,7 @@ Carried(a, v) ==
   ELSE v
 
 \* what the server reads back for one attribute from its location
-\* (side: who reads - the generated server takes the value of a REQUIRED plain string request cookie as it is, empty or not:
+\* (side: who reads - the generated server takes the value of a REQUIRED plain (or alias-typed) string request cookie as it is, empty or not:
 \*  `c, err = r.Cookie(..); if err == http.ErrNoCookie {missing} else {v = c.Value}`; every other reader tests the text against "")
 ReadBackAt(a, w, side) ==
   LET dflt == IF HasDefault(a) THEN DefaultOf(a) ELSE Absent
@@ -140,7 +140,7 @@ ReadBackAt(a, w, side) ==
   ELSE IF a.nest = "whole_mapval" /\ a.loc = "query" /\ Dev("decode.mapparams_prefix_expected") THEN EmptyOf(a)
   ELSE IF a.loc = "body" THEN c
   ELSE IF a.kind = "string" /\ a.nest \in {"direct", "alias", "whole"} /\ c.s = "empty" /\ Dev("param.empty_string_is_absent")
-          /\ ~(side = "server" /\ a.loc = "cookie" /\ a.mode = "required" /\ a.nest = "direct") THEN dflt
+          /\ ~(side = "server" /\ a.loc = "cookie" /\ a.mode = "required" /\ a.nest \in {"direct", "alias"}) THEN dflt
   ELSE IF a.kind = "bytes" /\ c.n = 0 /\ Dev("param.empty_string_is_absent") THEN dflt           \* (the same test on the raw text)
   ELSE IF a.loc = "path" /\ a.kind \in {"string", "bytes"} /\ c.s = "pcthex" /\ Dev("mux.double_unescape")
        THEN [c EXCEPT !.s = "plain", !.n = c.n - 2]
